@@ -54,14 +54,24 @@ pub fn run(data: &[u8], ctx: &mut Ctx) -> Outcome {
     // the base must not carry attachment / isA assertions of its own (plain, decorated or elided-predicate)
     let att_d = M::Known(50).digest();
     let isa_d = M::Known(1).digest();
-    for a in bm.assertions() {
-        if let M::Assertion(p, _) = a.subject() {
-            if p.digest() == att_d || p.digest() == isa_d {
-                base = base.remove_assertion(bridge::build_b(a).unwrap());
+    // (repeated: removing the last outer assertion of an envelope whose subject is a node exposes that
+    // node's own assertions at the top level)
+    let mut bm = bm;
+    loop {
+        let mut removed = false;
+        for a in bm.assertions() {
+            if let M::Assertion(p, _) = a.subject() {
+                if p.digest() == att_d || p.digest() == isa_d {
+                    base = base.remove_assertion(bridge::build_b(a).unwrap());
+                    removed = true;
+                }
             }
         }
+        bm = tryp!(ctx, bridge::read_out(&base), "readout", "C19/readout");
+        if !removed {
+            break;
+        }
     }
-    let bm = tryp!(ctx, bridge::read_out(&base), "readout", "C19/readout");
     let mut e = base.clone();
 
     // ---- attachments
